@@ -60,14 +60,40 @@ def alias_in_loop(ctx, rule, mod, qualnames=None):
 def charset_strip(ctx, rule, mod):
     n = 0
     for c in ast.walk(mod.tree):
-        if isinstance(c, ast.Call) and isinstance(c.func, ast.Attribute) and c.func.attr in ('strip', 'lstrip', 'rstrip') and len(c.args) == 1 \
-                and isinstance(c.args[0], ast.Constant) and isinstance(c.args[0].value, str):
-            lit = c.args[0].value
-            n += 1
-            if len(set(lit)) >= 2 and not lit.isspace() and any(ch.isalnum() for ch in lit):
-                ctx.violated(rule, '%s#charset-strip[%s]' % (mod.relpath.replace('pyerrors/', ''), unparse(c)[:50]),
-                             '`%s` removes every leading/trailing character out of the set %r, not the suffix %r: names or numbers ending in one of these characters are damaged' % (
-                                 unparse(c), sorted(set(lit)), lit), mod.loc(c))
+        if not (isinstance(c, ast.Call) and isinstance(c.func, ast.Attribute) and c.func.attr in ('strip', 'lstrip', 'rstrip') and len(c.args) == 1):
+            continue
+        lits = None
+        if isinstance(c.args[0], ast.Constant) and isinstance(c.args[0].value, str):
+            lits = [c.args[0].value]
+        elif isinstance(c.args[0], ast.Name):
+            # the variable of a loop over a display of string literals (for suffix in ['.dat', '.ms1']: name.rstrip(suffix))
+            q = mod.parents.get(c)
+            while q is not None and lits is None:
+                if isinstance(q, (ast.For, ast.comprehension)) and isinstance(q.target, ast.Name) and q.target.id == c.args[0].id:
+                    it = q.iter
+                    if isinstance(it, ast.Name):
+                        f_ = mod.enclosing_func(c)
+                        ds = [s_ for s_ in ast.walk(f_ if f_ is not None else mod.tree) if isinstance(s_, ast.Assign) and len(s_.targets) == 1 and isinstance(s_.targets[0], ast.Name)
+                              and s_.targets[0].id == it.id]
+                        it = ds[0].value if len(ds) == 1 else it
+                    if isinstance(it, (ast.List, ast.Tuple, ast.Set)) and it.elts and all(isinstance(e, ast.Constant) and isinstance(e.value, str) for e in it.elts):
+                        lits = [e.value for e in it.elts]
+                    break
+                if isinstance(q, (ast.ListComp, ast.GeneratorExp, ast.SetComp, ast.DictComp)):
+                    for g in q.generators:
+                        if isinstance(g.target, ast.Name) and g.target.id == c.args[0].id and isinstance(g.iter, (ast.List, ast.Tuple)) and g.iter.elts and all(
+                                isinstance(e, ast.Constant) and isinstance(e.value, str) for e in g.iter.elts):
+                            lits = [e.value for e in g.iter.elts]
+                q = mod.parents.get(q)
+        if lits is None:
+            continue
+        n += 1
+        bad = [lit for lit in lits if len(set(lit)) >= 2 and not lit.isspace() and any(ch.isalnum() for ch in lit)]
+        if bad:
+            lit = bad[0]
+            ctx.violated(rule, '%s#charset-strip[%s]' % (mod.relpath.replace('pyerrors/', ''), unparse(c)[:50]),
+                         '`%s` removes every leading/trailing character out of the set %r, not the suffix %r: names or numbers ending in one of these characters are damaged' % (
+                             unparse(c), sorted(set(lit)), lit), mod.loc(c))
     return n
 
 
@@ -103,4 +129,51 @@ def stale_buffer(ctx, rule, mod, qualnames):
                           'the buffer `%s` is initialised inside the loop at line %d' % (name, loop.lineno),
                           'the buffer `%s` is filled and consumed inside the loop at line %d but initialised only once in front of it: from the second iteration on it still contains the entries of the '
                           'previous iterations' % (name, loop.lineno), mod.loc(site))
+    return n
+
+
+def stale_accumulator(ctx, rule, mod, qualnames):
+    """the dict counterpart of stale_buffer: a dict whose entries are accumulated (`d[k] = d.get(k, 0) + x`, `d[k] += x`) and consumed
+    inside a loop but never read after it is a per-iteration accumulator and has to start empty in every iteration.  Initialised once in
+    front of the loop, iteration n also contains the sums of iterations 0..n-1 (the gradient of element n of a vector-valued function
+    contains the gradients of the elements before it)."""
+    n = 0
+    for q in qualnames:
+        if not mod.has_func(q):
+            continue
+        f = mod.func(q)
+        for loop in [x for x in walk(f) if isinstance(x, ast.For) and mod.enclosing_func(x) is f]:
+            if any(isinstance(lp, (ast.For, ast.While)) and lp is not loop and any(y is loop for y in ast.walk(lp)) for lp in walk(f)):
+                continue
+            inside = {id(x) for x in ast.walk(loop)}
+            acc = {}
+            for st in ast.walk(loop):
+                tg = None
+                if isinstance(st, ast.AugAssign) and isinstance(st.target, ast.Subscript) and isinstance(st.target.value, ast.Name):
+                    tg = st.target.value.id
+                elif isinstance(st, ast.Assign) and len(st.targets) == 1 and isinstance(st.targets[0], ast.Subscript) and isinstance(st.targets[0].value, ast.Name) \
+                        and any(isinstance(w, ast.Name) and w.id == st.targets[0].value.id for w in ast.walk(st.value)):
+                    tg = st.targets[0].value.id
+                if tg is not None:
+                    # an entry addressed by the loop's own variable is a slot of this iteration alone
+                    sl = st.target.slice if isinstance(st, ast.AugAssign) else st.targets[0].slice
+                    lv = {w.id for w in ast.walk(loop.target) if isinstance(w, ast.Name)}
+                    if not any(isinstance(w, ast.Name) and w.id in lv for w in ast.walk(sl)):
+                        acc.setdefault(tg, st)
+            for name, site in acc.items():
+                occ = [x for x in walk(f) if isinstance(x, ast.Name) and x.id == name]
+                inits = [s_ for s_ in walk(f) if isinstance(s_, ast.Assign) and len(s_.targets) == 1 and isinstance(s_.targets[0], ast.Name) and s_.targets[0].id == name
+                         and ((isinstance(s_.value, ast.Dict) and not s_.value.keys) or (isinstance(s_.value, ast.Call) and unparse(s_.value) in ('dict()', 'defaultdict(int)', 'defaultdict(float)')))]
+                if not inits:
+                    continue
+                init_inside = [s_ for s_ in inits if id(s_) in inside]
+                consumed = [x for x in occ if id(x) in inside and isinstance(x.ctx, ast.Load) and not any(x is w for w in ast.walk(site))]
+                read_after = [x for x in occ if id(x) not in inside and isinstance(x.ctx, ast.Load) and x.lineno > loop.end_lineno]
+                if not consumed or read_after:
+                    continue
+                n += 1
+                ctx.check(rule, '%s:%s#loop-accumulator[%s]' % (mod.relpath.replace('pyerrors/', ''), q, name), bool(init_inside),
+                          'the accumulator `%s` starts empty in every iteration of the loop at line %d' % (name, loop.lineno),
+                          'the accumulator `%s` is summed up and consumed inside the loop at line %d but emptied only once in front of it: from the second iteration on it still contains the '
+                          'sums of the previous iterations' % (name, loop.lineno), mod.loc(site))
     return n
